@@ -28,7 +28,7 @@ func (p *pg) genErr(profile string) (Config, Plan) {
 	c.SegSize = []int{64, 128, 200, 256, 512, 1024, 4096}[p.r.Intn(7)]
 	kinds := []string{"append", "append", "append", "deltail", "delhead", "delall", "reopen", "yield", "quiesce", "set", "get", "getstable"}
 	mix := p.swarmMix(kinds, "append")
-	n := 8 + p.r.Intn(30)
+	n := p.ops(8 + p.r.Intn(30))
 	var plan Plan
 	for i := 0; i < n; i++ {
 		op := p.draw(mix)
